@@ -263,6 +263,9 @@ def r2_sticky_failure(repo=None, rid="C10.R2", detected=None, title=None):
                         if e.kind == "BinaryOperator" and e.children[0].path() == var and e.children[1].intval() == 0 \
                                 and e.opcode in ("<",):
                             conds.append((c, n, "T"))
+                        elif e.kind == "BinaryOperator" and e.children[0].path() == var and e.children[1].intval() == 0 \
+                                and e.opcode in (">=",):
+                            conds.append((c, n, "F"))       # `if (status >= 0) <go on>;` - the failure is the false side
                         elif e.kind != "BinaryOperator" and e.path() == var:
                             conds.append((c, n, "T"))
             else:
@@ -663,8 +666,115 @@ def r5_failure_flag_means_io_failure(repo=None, rid="C10.R5"):
     return r
 
 
+DATA_ALTERING = ("H5Dwrite", "H5Dset_extent")
+
+
+def _status_fail_side(e, var=None, call=None):
+    """the branch label on which the status tested by condition e (of local `var`, or of `call` tested in place) is a failure"""
+    t = e.strip(casts=True)
+    if t.kind == "UnaryOperator" and t.opcode == "!":
+        fs = _status_fail_side(t.children[0], var, call)
+        return {"T": "F", "F": "T"}.get(fs)
+
+    def is_status(x):
+        x = x.strip(casts=True)
+        return (var is not None and x.path() == var) or (call is not None and x is call)
+    if t.kind == "BinaryOperator" and t.opcode in ("<", "!=", "==", ">=", ">", "<=") :
+        a, b = t.children
+        op = t.opcode
+        if is_status(b) and not is_status(a):
+            a, b = b, a
+            op = {"<": ">", ">": "<", "<=": ">=", ">=": "<="}.get(op, op)
+        if not is_status(a):
+            return None
+        v = b.intval()
+        if v == 0:
+            return {"<": "T", ">=": "F", "!=": "T", "==": "F"}.get(op)
+        if v == -1:
+            return {"==": "T", "!=": "F", "<=": "T", ">": "F"}.get(op)
+        return None
+    if is_status(t):
+        return "T"
+    return None
+
+
+def r6_detected_data_failure_is_final(repo=None):
+    """'A file is never published with content that is known to be damaged': once a call that alters the data file (H5Dwrite,
+    H5Dset_extent) has been *seen* to fail, what the file holds is not known any more - HDF5 drops a chunk whose eviction failed
+    whether or not a later call succeeds - so the only things the library may do are record the failure and give up.  On the CFG
+    of every library function: from the failure side of every test of such a call's status, no path reaches another
+    data-altering call (a second attempt, the index write, an extension) without first passing `has_failure = 1`."""
+    r = Rule("C10.R6", "after a detected failure of H5Dwrite / H5Dset_extent nothing is written to the file again before has_failure is set")
+    tu = cfront.lib(repo)
+    n_tests = 0
+    seen_tests = set()
+    for fname, fn in tu.functions.items():
+        calls = fn.calls(DATA_ALTERING)
+        if not calls:
+            continue
+        g = _cfg.build_c(fn)
+        setters = _failure_setters(g)
+        alter = {}
+        for c in fn.calls(DATA_ALTERING) + [c for c in fn.calls() if c.callee in tu.functions and tu.functions[c.callee].calls(DATA_ALTERING)]:
+            nd = _node_of(g, c)
+            if nd is not None:
+                alter.setdefault(nd.id, c)
+        for c in calls:
+            cn = _node_of(g, c)
+            use = clib.status_usage(c)
+            tests = []
+            if use == "tested":
+                tests.append((cn, _status_fail_side(cn.ast, call=c)))
+            elif use.startswith("assigned:"):
+                var = use.split(":", 1)[1]
+                others = [_node_of(g, nd).id for path, nd, rhs, kind in clib.stores(fn) if path == var and _node_of(g, nd) is not None
+                          and _node_of(g, nd).id != cn.id]
+                live = g.reach([b for b, l in g.succ[cn.id]], avoid=others)
+                for n in g.nodes:
+                    if n.kind == "cond" and n.ast is not None and n.id in live and any(x.path() == var for x in n.ast.walk() if x.kind == "DeclRefExpr"):
+                        tests.append((n, _status_fail_side(n.ast, var=var)))
+            else:
+                continue        # a dropped status is C10.R4's finding
+            for tn, lab in tests:
+                if lab is None or (fname, tn.id) in seen_tests:
+                    continue    # a test this rule does not read (R2 / R4 decide those)
+                seen_tests.add((fname, tn.id))
+                n_tests += 1
+                starts = [b for b, l in g.succ[tn.id] if l == lab]
+                reach = g.reach(starts, avoid=setters)
+                again = sorted((alter[i] for i in alter if i in reach), key=lambda c_: c_.line)
+                site = "%s:%s %s `%s`" % (LIB, tn.line, fname, tn.label[:50])
+                if again:
+                    a_ = again[0]
+                    r.violation(LIB, fname, "after the failed %s: %s" % (c.callee, a_.nsrc[:60]), "the failure side of `%s` reaches %s (line %d) "
+                                "without has_failure having been set: the file is written again after an I/O error whose effect on it is "
+                                "unknown (a chunk whose eviction failed is dropped by HDF5) and, if the second call succeeds, no error is "
+                                "reported and the damaged file is published" % (tn.label[:40], a_.callee, a_.line), line=tn.line)
+                else:
+                    r.ok(site, "no data-altering call is reachable from the failure side before has_failure = 1")
+    if n_tests < 2:
+        raise AnalysisError("C10.R6: %d tests of the status of H5Dwrite / H5Dset_extent found, 3 confirmed on the reference tree" % n_tests)
+    r.guard(2)
+    return r
+
+
+def r7_nothing_open_at_publication(repo=None):
+    """'a file is never published with content that is known to be damaged' needs every flush point of the file to lie *before*
+    the publishing rename, where its status can still turn the rename into a removal: at each publish call every HDF5 handle of
+    the data file is closed or zero on every path (typestate, C02.R2).  A data set left open makes H5Fclose a no-op that succeeds;
+    the real flush then runs, unchecked, when the object is freed - after the file got its final name."""
+    from . import c02
+    x = c02.r2_publish_after_close(repo)
+    old = x.rid
+    x.rid = "C10.R7"
+    for f in x.findings:
+        f.rule = "C10.R7"
+    x.title = x.title + " [= %s]" % old
+    return x
+
+
 def rules(repo=None):
-    return [lambda: r1_flush_status_gates_publication(repo), lambda: r2_sticky_failure(repo),
+    return [lambda: r7_nothing_open_at_publication(repo), lambda: r6_detected_data_failure_is_final(repo), lambda: r1_flush_status_gates_publication(repo), lambda: r2_sticky_failure(repo),
             lambda: r3_failed_file_removed(repo), lambda: r4_no_lost_status(repo), lambda: r5_failure_flag_means_io_failure(repo)]
 
 
@@ -679,7 +789,9 @@ EXPLANATION = (
     'the H5Fcreate of drf_properties.h5 reaches its error return only through remove / unlink of that path (guarded only '
     "by 'did the name exist before'): a failed create leaves no empty file behind. Decides the error discipline on all "
     'paths, NOT what HDF5 does internally after a failed write. R5: who-may-set has_failure with provenance - every non-'
-    'zero store is controlled by a test of an I/O status (see C11.R9).')
+    'zero store is controlled by a test of an I/O status (see C11.R9). R6: from the failure side of every test of the status of '
+    'H5Dwrite / H5Dset_extent no data-altering call (a retry, the index write) is reachable before has_failure is set. R7 (= C02.R2): '
+    'at every publish call all HDF5 handles of the data file are closed or zero on every path - no flush point is left for after the rename.')
 TECHNIQUE = ('clang JSON AST; status-usage classification of every I/O call; CFG must-pass of failure branches before the publish decision')
 ASSUMPTIONS = ["HDF5 flushes buffered data at H5Dclose/H5Fclose and reports failure through their return value",
                "attribute/dataspace/property-list calls do no file I/O (their failure surfaces at the next flush point)",
